@@ -44,8 +44,8 @@ SPECS = {
     'a_full': {'name': 'a_full', 'setup': 'cs_setup1', 'threads': [('cs_warm', 'cs_r_load_full'), ('cs_warm', 'cs_w_store1')],
                'final': 'cs_final1', 'covers': [13]},
     'b_fallback': {'name': 'b_fallback', 'setup': 'cs_setup1',
-                   'threads': [('cs_fill8_t1', 'cs_r_fallback_then_release'), ('cs_warm', 'cs_w_store1')],
-                   'final': 'cs_final1', 'covers': [13]},
+                   'threads': [('cs_fill8_t1', 'cs_r_fallback'), ('cs_warm', 'cs_w_store1')],
+                   'final': 'cs_final1_release', 'covers': [13, 14]},
     'lin2': {'name': 'lin2', 'setup': 'cs_setup1', 'threads': [('cs_warm', 'cs_r_load2'), ('cs_warm', 'cs_w_store12')],
              'final': 'cs_final1', 'covers': [13]},
     'swap2': {'name': 'swap2', 'setup': 'cs_setup1', 'threads': [('cs_warm', 'cs_w_swap1'), ('cs_warm', 'cs_w_swap2')],
@@ -99,3 +99,15 @@ def c17(ctx):
     seq_run(ctx, 'c17_access')
     if ctx.tier != 'quick':
         seq_run(ctx, 'c17_access', flavor='dbg')
+
+
+@prop('C18')
+def c18(ctx):
+    ctx.level = 'fault_enumeration'
+    ctx.bounds.update({'panic_points': ['rcu closure attempt 1', 'rcu closure attempt 2 (retry forced by re-entrant store)',
+                                        'Drop of the replaced value inside store', 'Drop of the rejected new value inside compare_and_swap',
+                                        'projection inside Map::load'], 'threads': 'sequential, follow-up operations on a second simulated thread',
+                       'flavour': 'panic=unwind: landing pads, cleanup and resume are executed'})
+    ctx.outside += ['panics with concurrent readers/writers (sequential fault injection only)', 'Clone of a custom pointee']
+    for e in ['c18_rcu', 'c18_store_drop', 'c18_cas_reject', 'c18_map']:
+        seq_run(ctx, e, flavor='unw')
